@@ -231,6 +231,14 @@ theorem layout_48 (fx : Fixes) (s : Machine) (hs : WF48 s)
   rw [hp 5, hp 2, hp 0]
   rfl
 
+/-- **C13, `layout`** (both machines, repaired getters): what `save` writes is byte for byte the file
+the SNA layout prescribes for the machine's abstract state — every header offset, the bank order,
+the secondary header, the pushed PC. -/
+theorem layout (s : Machine) (h : WF48 s ∨ WF128 s) : snaSave Fixes.all s = Spec.snaOf (Spec.abs s) := by
+  rcases h with h | h
+  · exact layout_48 Fixes.all s h rfl rfl
+  · exact layout_128 Fixes.all s h rfl rfl
+
 /-- The defect made visible in the layout: the code as it is writes HL where HL' belongs. -/
 theorem layout_header_code_writes_hl (s : Machine) :
     (snaHeader Fixes.none s).getD 1 0 = s.cpu.l ∧ (snaHeader Fixes.none s).getD 2 0 = s.cpu.h := ⟨rfl, rfl⟩
